@@ -15,7 +15,7 @@ Definition sw_conf : ss_conf :=
      cf_free_data := 1; cf_free_parity := 1; cf_free_size := 1048576; cf_free_frac := sw_f0;
      cf_free_max_wp := 1000000000000; cf_free_max_rp := 1000000000000;
      cf_max_indiv_free := 1000000000000; cf_max_total_free := 10000000000000;
-     cf_owner := 300; cf_sc := 1000; cf_electra := Some 0; cf_demeter := Some 0 |}.
+     cf_owner := 300; cf_sc := 1000; cf_electra := Some 0; cf_demeter := Some 0; cf_ent := false |}.
 
 Definition sw_blobber (id : Z) (killed : bool) (allocd saved wp offers : Z) : ss_blobber :=
   {| bl_id := id; bl_cap := 107374182400; bl_allocd := allocd; bl_saved := saved; bl_killed := killed; bl_shut := false;
@@ -70,7 +70,7 @@ Definition sw_free_conf : ss_conf :=
      cf_free_data := 1; cf_free_parity := 1; cf_free_size := 1048576; cf_free_frac := f64_div (f64_of_Z 1) (f64_of_Z 10);
      cf_free_max_wp := 1000000000000; cf_free_max_rp := 1000000000000;
      cf_max_indiv_free := 1000000000000; cf_max_total_free := 10000000000000;
-     cf_owner := 300; cf_sc := 1000; cf_electra := Some 0; cf_demeter := Some 0 |}.
+     cf_owner := 300; cf_sc := 1000; cf_electra := Some 0; cf_demeter := Some 0; cf_ent := false |}.
 
 Definition sw_free_state : ss_state :=
   {| st_allocs := [];
